@@ -110,6 +110,8 @@ def model_spec(model):
         return 2, 0.5 * M.SZ, unique
     if base == "d2x":
         return 2, 0.5 * M.SX, unique
+    if base == "d2y":          # complex Hermitian coupling: complex eigenvectors
+        return 2, 0.5 * M.SY + 0.2 * M.SX, unique
     if base == "d3":
         return 3, np.diag([1.0, 0.0, -1.0]).astype(complex), unique
     if base == "d3deg":
@@ -236,13 +238,14 @@ def steps_of(model):
     return 3 if model.startswith("d3") and not model.endswith("-u") else N_STEPS
 
 
-def get_pt(model, sd, alpha, temp, memory, epsrel, dt, n):
-    key = ("pt", model, sd, alpha, temp, memory, epsrel, dt, n)
+def get_pt(model, sd, alpha, temp, memory, epsrel, dt, n, file_backed=False):
+    key = ("pt", model, sd, alpha, temp, memory, epsrel, dt, n, file_backed)
     if key not in _CACHE:
         unique = model_spec(model)[2]
         bath = get_bath(model, sd, alpha, temp)
+        kw = {"process_tensor_file": True} if file_backed else {}       # True: a temporary HDF5 file
         _CACHE[key] = oq.pt_tempo_compute(bath, 0.0, n * dt, get_params(memory, epsrel, dt), unique=unique,
-                                          progress_type="silent")
+                                          progress_type="silent", **kw)
     return _CACHE[key]
 
 
@@ -285,8 +288,8 @@ def produce(case):
         tempo = oq.Tempo(make_system(d, case["system"]), bath, get_params(memory, eps, dt), rho0, 0.0, unique=unique)
         dyn = tempo.compute(n * dt, progress_type="silent")
         out = [("system", np.array(dyn.states))]
-    elif prod == "pt":
-        pt = get_pt(model, sd, alpha, temp, memory, eps, dt, n)
+    elif prod in ("pt", "ptfile"):
+        pt = get_pt(model, sd, alpha, temp, memory, eps, dt, n, file_backed=(prod == "ptfile"))
         dyn = oq.compute_dynamics(make_system(d, case["system"]), rho0, process_tensor=pt, progress_type="silent")
         out = [("system", np.array(dyn.states))]
     elif prod in ("mf", "ptmf"):
@@ -338,7 +341,7 @@ def run_dynamics_case(case):
         if label in ("system", "system0"):
             res["lm"] = min(res["lm"], float(lm.min()))
             res["lm_abs"] = max(res["lm_abs"], float(np.abs(lm).max()))
-            ref = free_states if case["producer"] in ("tempo", "pt") else free_mf_states
+            ref = free_states if case["producer"] in ("tempo", "pt", "ptfile") else free_mf_states
             res["move"] = float(np.abs(st - ref(d, case["system"], case["state"], case["dt"], n)).max())
         for sig, k, val in physicality(st, tol, psd=psd_claimed):
             res["viol"].append((f"{sig}-violated", f"{label} step {k}: {sig} deviation {val:.3e} > tol {tol:.1e}"))
@@ -364,6 +367,11 @@ def group_worker(group):
     out[0][1]["cpu"] = time.process_time() - t0
     # keep the per-worker cache small: process tensors are only shared inside a group
     for k in [k for k in _CACHE if k[0] in ("pt", "bath")]:
+        if k[0] == "pt" and k[-1] is True:
+            try:
+                _CACHE[k].remove()          # the temporary file of a file-backed process tensor
+            except Exception:  # noqa
+                pass
         del _CACHE[k]
     return out
 
@@ -381,6 +389,15 @@ def dynamics_groups(tier):
         d = model_spec(model)[0]
         inner = [(s, y) for s in STATES if state_ok(d, s) for y in SYSTEMS]
         groups.append((prod, alpha, temp, sd, model, memory, eps, dt, inner))
+    # PT-TEMPO writing straight into a file, non-diagonal real and complex coupling operators
+    for (sd, dt), model, alpha, temp, memory in itertools.product(grids[:1], ("d2x", "d2y", "d3rot"), (ALPHAS[1],), TEMPS,
+                                                                 ("full", "dkmax2+tau")):
+        d = model_spec(model)[0]
+        inner = [(s, y) for s in STATES if state_ok(d, s) for y in SYSTEMS]
+        groups.append(("ptfile", alpha, temp, sd, model, memory, EPS[0], dt, inner))
+        if model == "d2y":
+            groups.append(("pt", alpha, temp, sd, model, memory, EPS[0], dt, inner))
+            groups.append(("tempo", alpha, temp, sd, model, memory, EPS[0], dt, inner))
     return groups
 
 
@@ -392,7 +409,7 @@ def dynamics_groups(tier):
 TEBD_LAYOUTS = {"edge": ((1, 0, 0), 6), "middle": ((0, 1, 0), 6), "two": ((1, 1), 4)}
 
 
-def _tebd_run(layout_name, pt, state, system, order, eps):
+def _tebd_run(layout_name, pt, state, system, order, eps, restart_at=None):
     dt = 0.2
     layout, n = TEBD_LAYOUTS[layout_name]
     nsites = len(layout)
@@ -417,7 +434,14 @@ def _tebd_run(layout_name, pt, state, system, order, eps):
     tebd = oq.PtTebd(initial_augmented_mps=amps, system_chain=chain,
                      process_tensors=[pt if x else None for x in layout],
                      parameters=prm, dynamics_sites=sites)
-    return sites, tebd.compute(n, progress_type="silent")
+    if restart_at is None:
+        return sites, tebd.compute(n, progress_type="silent")
+    # checkpoint / restart: the chain state (a mixed state: explicit lambdas) exported at step k continues in a new object
+    tebd.compute(restart_at, progress_type="silent")
+    cont = oq.PtTebd(initial_augmented_mps=tebd.get_augmented_mps(), system_chain=chain,
+                     process_tensors=[pt if x else None for x in layout], parameters=prm, dynamics_sites=sites,
+                     start_step=restart_at, start_time=restart_at * dt)
+    return sites, cont.compute(n, progress_type="silent")
 
 
 def free_tebd_states(layout_name, state, system, order):
@@ -467,6 +491,27 @@ def tebd_case(case):
             res["move"] = max(res["move"], float(np.abs(st - free_tebd_states(case["layout"], state, system, order)[s]).max()))
         for sig, k, val in physicality(st, tol, psd=psd_claimed):
             res["viol"].append((f"{sig}-violated", f"site {s} step {k}: {sig} deviation {val:.3e} > tol {tol:.1e}"))
+    # the same invariants on the part of the run that continues from an exported chain state
+    k0 = n // 2
+    try:
+        sites2, r2 = _tebd_run(case["layout"], pt, state, system, order, eps, restart_at=k0)
+    except Exception as ex:  # noqa
+        res["viol"].append((f"restart-exception:{type(ex).__name__}", f"{type(ex).__name__}: {ex}"[:200]))
+        return res
+    norm2 = np.asarray(r2["norm"])
+    nd2 = np.abs(norm2 - 1.0)
+    nd2 = np.where(np.isfinite(nd2), nd2, np.inf)
+    if norm2.shape[0] != n - k0 + 1:
+        res["viol"].append(("restart-state-count", f"{norm2.shape[0]} norms instead of {n - k0 + 1} after the restart at {k0}"))
+    elif (nd2 > tol).any():
+        k = int(np.argmax(nd2 > tol))
+        res["viol"].append(("restart-norm-violated", f"restart at step {k0}: results['norm'][{k}] = {norm2[k]:.8f}"))
+    for s_ in sites2:
+        st = np.array(r2["dynamics"][s_].states)
+        res["n_states"] += st.shape[0]
+        for sig, k, val in physicality(st, tol, psd=psd_claimed):
+            res["viol"].append((f"restart-{sig}-violated", f"restart at step {k0}: site {s_} record {k}: {sig} deviation {val:.3e}"))
+            break
     return res
 
 
@@ -485,6 +530,11 @@ def tebd_group_worker(group):
         out.append((case, tebd_case(case)))
     out[0][1]["cpu"] = time.process_time() - t0
     for k in [k for k in _CACHE if k[0] in ("pt", "bath")]:
+        if k[0] == "pt" and k[-1] is True:
+            try:
+                _CACHE[k].remove()          # the temporary file of a file-backed process tensor
+            except Exception:  # noqa
+                pass
         del _CACHE[k]
     return out
 
